@@ -213,6 +213,10 @@ class Peer:
         self._delay: Delay = Delay()
         self.recv_timer: ReceiveTimer | None = None
 
+        # the task inside _run(), and whether handle_connection() replaced the connection it was serving
+        self._run_task: asyncio.Task[None] | None = None
+        self._replaced: bool = False
+
     def id(self) -> str:
         return 'peer-{}'.format(self.neighbor.uid)
 
@@ -426,7 +430,15 @@ class Peer:
                 lazymsg('peer.connection.closing connection={c} reason=higher_router_id_incoming', c=connection.name()),
                 self.id(),
             )
+            # RFC 4271 6.8: the connection which loses is closed with a Cease (RFC 4486, 6/7), once our OPEN went out
+            if self.fsm in (FSM.OPENSENT, FSM.OPENCONFIRM):
+                self.proto.cease_collision()
             self._close('closing outgoing connection as we have another incoming on with higher router-id')
+            # the task is still waiting on the connection just closed: left alone, it answered the timer of
+            # that connection on the one accepted here, and closed it. It is interrupted and starts again
+            if self._run_task is not None:
+                self._replaced = True
+                self._run_task.cancel()
 
         self.proto = Protocol(self).accept(connection)
         self.fsm_runner.clear()
@@ -930,7 +942,17 @@ class Peer:
 
             if self._restart:
                 log.debug(lazymsg('peer.connection.initializing peer={p}', p=self.id()), 'reactor')
-                await self._run()
+                self._run_task = asyncio.current_task()
+                try:
+                    await self._run()
+                except asyncio.CancelledError:
+                    # only the interruption requested by handle_connection() is ours to absorb
+                    if not self._replaced or self._run_task is None:
+                        raise
+                    self._run_task.uncancel()
+                finally:
+                    self._run_task = None
+                    self._replaced = False
                 # After _run completes, check if we should restart
                 if not self._restart:
                     break
